@@ -76,6 +76,18 @@ claim(
     "DESIGN.md section 4, C18",
 )
 
+claim(
+    "C15",
+    "symbolic path enumeration of _try_block_config with a linear-inequality derivation of the layout order from the path guards; must-pass-through "
+    "of the validity test; argument-by-argument sibling agreement of the public query and the generator over an enumerated operation table; axis roles",
+    "Decides clauses a-e of DESIGN.md 4/C15: the validity test (positive, <= max, multiple of micro-block, three axes) guards every used/offered block; "
+    "on every returning path ib_start <= ib_end <= ab_start <= lut_start <= total and the IFM2 partition ends below the accumulators (derived from the "
+    "guards, shape independent); partitions are per-element rounded, doubled and granule-rounded; search / validator / query / generator agree on every "
+    "quantity handed to the SHRAM arithmetic. Does NOT decide the numeric bank arithmetic for all shapes.",
+    "Trusted: positivity of bank counts, granules and extents; round_up / round_up_divide as opaque non-negative functions.",
+    "DESIGN.md section 4, C15",
+)
+
 
 def build():
     checks = []
